@@ -61,7 +61,7 @@ class C11(Prop):
         return obs
 
     def _harness_rest(self, ctx, obs):
-        for name in ("C11", "C11Inject", "C11B64", "C11Tail"):
+        for name in ("C11", "C11Inject", "C11B64", "C11Tail", "C11SendThenClose"):
             rc, out, p, dt = C.go_test_overlay(ctx.work, "./agent/websockets/", "TestVerif%s$" % name, OVERLAY, name + ".jsonl", ctx.seed, ctx.tier, timeout=1800)
             rows = C.read_jsonl(p)
             if rc != 0 or not rows:
@@ -96,6 +96,13 @@ class C11(Prop):
                 res.append(("session-open-failed", "%s (status %s)" % (r["error"], r.get("status")), rp))
             elif not r["s2c_equal"]:
                 res.append(("server-to-client:lost-at-end-of-stream", "%d of the %d messages sent before the backend ended the connection were polled" % (len(r["s2c_polled"] or []), len(r["s2c_sent"] or [])), rp))
+        for r in obs.get("C11SendThenClose", []):
+            rp = {"driver": "TestVerifC11SendThenClose: one data post (answered 200) and at once the close of the session; the backend takes its time per message", "observed": r}
+            if r.get("open_status") != 200:
+                res.append(("session-open-failed", "open answered %s" % r.get("open_status"), rp))
+            elif r.get("data_status") == 200 and not r.get("all_in_order"):
+                res.append(("client-to-server:lost-at-close", "the data post was answered 200, yet the backend received %s of its %d messages before the websocket ended (close code %s)" % (
+                    r.get("backend_received"), r["messages"], r.get("backend_close_code")), rp))
         for r in obs.get("C11Idle", []):
             rp = {"driver": "TestVerifC11Idle: one message each way, %s ms of silence (one empty long poll, then nothing), one message each way" % r.get("silence_ms"), "observed": r}
             if r.get("error"):
